@@ -93,6 +93,11 @@ W4sOps == Call("load", {K("N0","c")}) \cup {Simple("enhance"), NotifyOp({FileE("
 W4tOps == Call("load", {K("N0","c")}) \cup {Simple("enhance"), NotifyOp({FileE("c","y")}), NotifyOp({FileE("a","x")}),
           EditOp(F("c","y"), CRef("b")), EditOp(F("a","x"), CVal(3))}
 
+(* W4y: like W4x, but then the dependency that was DROPPED by the second registration is edited: the asset must *)
+(* not be rewritten (C06) ------------------------------------------------------------------------------------- *)
+W4yOps == Call("load", {K("N0","c")}) \cup Call("remove", {K("N0","c")}) \cup {Simple("hot_reload"), NotifyOp({FileE("a","x")}),
+          EditOp(F("c","y"), CRef("b")), EditOp(F("a","x"), CVal(3))}
+
 (* W4d: the shortest histories that re-wire and edit in one batch (D8) ------- *)
 W4dOps == Call("load", {K("L0","b"), K("N0","c")}) \cup {Simple("hot_reload"), NotifyOp({FileE("c","y"), FileE("b","x")}),
           EditOp(F("c","y"), CRef("b")), EditOp(F("b","x"), CVal(2))}
@@ -178,6 +183,15 @@ W9nFiles == {F("a","x"), F("d","y")}
 W9nSrcs == {[f \in W9nFiles |-> IF f = F("a","x") THEN c ELSE CVal(1)] : c \in {None, CBad}}
 W9nScripts == (K("N0","d") :> <<ILoad("L0","a",FALSE), IRead("d","y")>>)
 W9nOps == Call("load", W9nKeys) \cup {Simple("hot_reload"), NotifyOp({FileE("a","x")}), EditOp(F("a","x"), CVal(2))}
+
+(* W9o: a reloadable compound that takes a NON-reloadable asset as an owned value: the file that asset is read *)
+(* from belongs to the compound, which follows it (C14, C05) --------------------------------------------------- *)
+W9oKeys == {K("L2","a"), K("L0","a"), K("N0","d")}
+W9oFiles == {F("a","x"), F("d","y")}
+W9oSrcs == {[f \in W9oFiles |-> CVal(1)]}
+W9oScripts == (K("N0","d") :> <<IOwned("L2","a",TRUE), IRead("d","y")>>)
+W9oOps == Call("load", {K("N0","d"), K("L2","a")}) \cup {Simple("hot_reload")}
+          \cup {NotifyOp({FileE(f[1], f[2])}) : f \in W9oFiles} \cup {EditOp(f, CVal(2)) : f \in W9oFiles}
 
 (* W9: attribution of dependencies (C14): no_record, load_owned, nesting ----- *)
 W9Keys == {K("L0","a"), K("L0","b"), K("L0","c"), K("L2","a"), K("N0","d"), K("N1","d.a"), K("N4","d.b")}
